@@ -365,7 +365,9 @@ def gen_registry(rng, resolve=False, maxops=45):
             for j in range(nk):
                 name = rng.choice([1, 2, 3, 7]) if rng.random() < 0.3 else j + 1
                 pools.append(makers[fam](pf, j, name))
-            pgw = rng.choice(["-", "junk", atok(4, 0x0a000001)]) if fam == "4" else "-"
+            mine = [k for k in keys["4"] if k[0].startswith("%d/" % pf)]
+            inside = atok(4, rng.randint(*rng.choice(mine)[1:])) if mine else atok(4, 0x0a000001)
+            pgw = rng.choice(["-", "junk", inside, inside]) if fam == "4" else "-"   # profile gateway inside one of its pools
             entries.append((pf, fam, pgw, pools))
     # order: every IPv4 list, then per v6 profile IA_NA before PD
     order = [e for e in entries if e[1] == "4"]
@@ -625,6 +627,43 @@ def gen_geometry(rng):
     return "xreg 1 1 4 - 1 1 0 0 %s/29 - - - 1 %s %s ; A41,1,0,0 A41,1,0,0 V41/1" % (atok(4, 0x0a000000), ex[0], ex[1])
 
 
+def gateway_block():
+    """Deterministic: pool-level vs profile-level gateway (the only per-pool value of initV4Pools / initV6Pools with a
+    profile-level default) across 2-3 pools of one IPv4 profile, every combination of {pool has its own gateway, has
+    none} x profile gateway {none, unparseable, inside pool i's range for every i}, configuration order vs priority
+    order reversed; plus the IA_NA twin (pool gateway only, no profile default).  Every pool is counted and drained
+    through an override, so which address is missing from each pool is observed."""
+    import itertools
+    out = []
+    for k in (2, 3):
+        bases = [0x0a000100 + (j << 4) for j in range(k)]          # 10.0.1.0/28, 10.0.1.16/28, ... ranges .2-.5
+        for own in itertools.product([False, True], repeat=k):
+            for pg in ["-", "junk"] + list(range(k)):
+                for rev in (False, True):
+                    pgw = pg if isinstance(pg, str) else atok(4, bases[pg] + 4)
+                    toks = ["1", "1", "4", pgw, str(k)]
+                    for j in range(k):
+                        prio = (k - j) if rev else j
+                        gw = atok(4, bases[j] + 3) if own[j] else "-"
+                        toks += [str(j + 1), str(prio), "0", "%s/28" % atok(4, bases[j]), atok(4, bases[j] + 2), atok(4, bases[j] + 5), gw, "0"]
+                    ops = ["O41"]
+                    for j in range(k):
+                        ops += ["V41/%d" % (j + 1)] + ["A4%d,1,%d,0" % (j + 1, j + 1)] * 5
+                    out.append("reg %s ; %s" % (" ".join(toks), " ".join(ops)))
+    b6 = 0x20010db8 << 96
+    for own in itertools.product([False, True], repeat=2):
+        toks = ["1", "1", "n", "-", "2"]
+        for j in range(2):
+            base = b6 + (j << 4)
+            gw = atok(6, base + 3) if own[j] else "-"
+            toks += [str(j + 1), "0", "0", "%s/124" % atok(6, base), atok(6, base + 2), atok(6, base + 5), gw, "0"]
+        ops = []
+        for j in range(2):
+            ops += ["Vn1/%d" % (j + 1)] + ["An%d,1,%d,0" % (j + 1, j + 1)] * 5
+        out.append("reg %s ; %s" % (" ".join(toks), " ".join(ops)))
+    return out
+
+
 def exhaustive_small():
     """all histories of length <= L over a 3-address pool with one exclusion and 2 sessions"""
     lo, hi = 0x0a0000fe, 0x0a000101          # 10.0.0.254 .. 10.0.1.1 (4 addresses, one excluded -> 3 assignable)
@@ -669,6 +708,7 @@ def gen_cases(rng, tier, budget):
         # the same Resolve / registry ops with no registry at all (nil global registry, nil receivers)
         c = gen_registry(rng, resolve=True, maxops=25) if rng.random() < 0.6 else gen_reentry(rng)
         cases.append("resn" + c[3:])
+    cases += gateway_block()
     # bounded-exhaustive block
     lo, hi, ex, alpha = exhaustive_small()
     L = 2 if tier == "quick" else 4
